@@ -43,6 +43,9 @@ def _to_zip_product(sweep: cirq.Sweep) -> cirq.Product:
         factors = [f if isinstance(f, cirq.Zip) else cirq.Zip(f) for f in sweep.factors]
         sweep = cirq.Product(*factors)
     for factor in sweep.factors:
+        if isinstance(factor, cirq.ZipLongest):
+            # The v1 ZipSweep message stops at its shortest member.
+            raise ValueError(f'cannot convert to zip-product form: {sweep}')
         for term in cast(cirq.Zip, factor).sweeps:
             if not isinstance(term, sweeps.SingleSweep):
                 raise ValueError(f'cannot convert to zip-product form: {sweep}')
